@@ -189,9 +189,15 @@ func runOnce(c *Case, order []int, opts ...z.ExecOption) (evs []Event, ret Ret) 
 	destPtr := reflect.New(goType(c.Schema))
 	rec.root = destPtr.Elem()
 	var data any
+	cleanup := func() {}
+	defer func() { cleanup() }()
 	if c.Mode == "parse" {
 		initDest(destPtr.Elem(), c.Schema, c.Pre == 1)
-		data = frontEndData(c)
+		if c.Fe == "map" || c.Fe == "json" {
+			data = frontEndData(c)
+		} else {
+			data, cleanup = frontEndData2(c)
+		}
 	} else {
 		setValue(destPtr.Elem(), c.Schema, c.Input)
 	}
